@@ -7,6 +7,7 @@ code -> spec: each scenario is replayed into the real Client against a scripted 
 trace (commands strictly decoded, replies, results) is judged by TLC (MSStoreTrace), which re-executes
 the commands with the specification's server semantics -- the scripted server is checked, not trusted.
 """
+import hashlib
 import json
 import multiprocessing as mp
 import os
@@ -271,7 +272,7 @@ def validate(traces):
         try:
             res = run_tlc("storetrace", "MSStoreTrace", "",
                           "SPECIFICATION Spec\nCONSTANTS\n Names = {\"a\"}\n Bodies = {\"B1\"}\nINVARIANT Emit\nCHECK_DEADLOCK FALSE\n",
-                          on_value=lambda v: g.__setitem__(v[0], (v[1], v[2])), workers=1, env={"TRACE_FILE": path})
+                          on_value=lambda v: g.__setitem__(v[0], (v[1], v[2])), workers=1, env={"TRACE_FILE": path}, heap="4g")
         finally:
             os.unlink(path)
         return g, res
@@ -337,7 +338,6 @@ def run(prop, tier, seed, write_evidence=True):
     bydev = findings.by_dev()
     machinery = []
     states = trans = 0
-    traces, infos, scen = [], [], []
     if prop in ("C14", "C09"):
         out, res = tlc_rename(tier if prop == "C14" else "quick")
         if res["error"] or res["violated"]:
@@ -345,11 +345,7 @@ def run(prop, tier, seed, write_evidence=True):
         states += res["distinct"]
         trans += res["states"]
         tasks = [tuple(o) + (seed * 100003 + i,) for i, o in enumerate(out)]
-        with mp.Pool(12) as pool:
-            for ev, info in pool.imap(replay_rename, tasks, chunksize=100):
-                traces.append(ev)
-                infos.append(info)
-        scen = tasks
+        replay_fn, csize = replay_rename, 100
     else:
         # exhaustive short sessions + simulated long ones
         short, r1 = tlc_sessions(2, None, None, ALLOPS[:6] if tier == "quick" else ALLOPS)
@@ -364,38 +360,52 @@ def run(prop, tier, seed, write_evidence=True):
             rng.shuffle(short)
             short = short[:6000]
         tasks = [(o[0], o[1], o[2], seed * 7 + i) for i, o in enumerate(short + longs)]
+        replay_fn, csize = replay_session, 50
+        del short, longs
+    scen = tasks
+    # replay and judge in slices, keeping only what is reported (a thorough run has millions of events)
+    viols, known = [], {}
+    ntraces, digests, samples = 0, set(), []
+    SLICE = 40000
+    for lo in range(0, len(tasks), SLICE):
+        part = tasks[lo:lo + SLICE]
+        traces, infos = [], []
         with mp.Pool(12) as pool:
-            for ev, info in pool.imap(replay_session, tasks, chunksize=50):
+            for ev, info in pool.imap(replay_fn, part, chunksize=csize):
                 traces.append(ev)
                 infos.append(info)
-        scen = tasks
-    got, st = validate(traces)
-    if st["error"]:
-        machinery.append("TLC MSStoreTrace: %s" % st["error"])
-    if len(got) != len(traces):
-        machinery.append("MSStoreTrace judged %d of %d traces" % (len(got), len(traces)))
-    states += st["distinct"]
-    trans += st["states"]
-    viols, known = [], {}
-    for i, ev in enumerate(traces):
-        clause, at = got.get(i, ("", 0))
-        if not clause:
-            continue
-        if clause in MACHINERY_CLAUSES:
-            machinery.append("%s at event %d of trace %d: %s" % (clause, at, i, json.dumps(ev)[:300]))
-            continue
-        if CLAUSES_FOR.get(prop) and clause not in CLAUSES_FOR[prop]:
-            continue
-        rec = {"clause": clause, "at": at, "trace": ev, "scenario": list(scen[i])[:9], "info": infos[i]}
-        hit = None
-        for d in devs:
-            f = bydev[d]
-            if clause in f.get("clauses", []):
-                hit = d
-        if hit:
-            known.setdefault(hit, []).append(rec)
-        else:
-            viols.append(rec)
+        got, st = validate(traces)
+        if st["error"]:
+            machinery.append("TLC MSStoreTrace: %s" % st["error"])
+        if len(got) != len(traces):
+            machinery.append("MSStoreTrace judged %d of %d traces" % (len(got), len(traces)))
+        states += st["distinct"]
+        trans += st["states"]
+        ntraces += len(traces)
+        for t in traces:
+            digests.add(hashlib.md5(json.dumps(t).encode()).digest())
+        if traces and len(samples) < 2:
+            samples.append({"scenario": list(part[0])[:9], "observed_trace": traces[0], "verdict": got.get(0)})
+        for i, ev in enumerate(traces):
+            clause, at = got.get(i, ("", 0))
+            if not clause:
+                continue
+            if clause in MACHINERY_CLAUSES:
+                machinery.append("%s at event %d of trace %d: %s" % (clause, at, lo + i, json.dumps(ev)[:300]))
+                continue
+            if CLAUSES_FOR.get(prop) and clause not in CLAUSES_FOR[prop]:
+                continue
+            rec = {"clause": clause, "at": at, "trace": ev, "scenario": list(part[i])[:9], "info": infos[i]}
+            hit = None
+            for d in devs:
+                f = bydev[d]
+                if clause in f.get("clauses", []):
+                    hit = d
+            if hit:
+                known.setdefault(hit, []).append(rec)
+            elif len(viols) < 200:
+                viols.append(rec)
+        del traces, infos, got
     rc = 0
     for m in machinery[:5]:
         print("MACHINERY-FAILURE " + m)
@@ -419,10 +429,10 @@ def run(prop, tier, seed, write_evidence=True):
         k += 1
     if viols and rc == 0:
         rc = 1
-    cov = {"states": states, "transitions": trans, "traces_validated_against_impl": len(traces),
-           "samples": [{"scenario": list(scen[i])[:9], "observed_trace": traces[i], "verdict": got.get(i)} for i in (0, len(traces) // 2) if traces],
-           "exhaustive": prop == "C14", "evaluations": len(traces),
-           "distinct_nontrivial": len(set(json.dumps(t) for t in traces)),
+    cov = {"states": states, "transitions": trans, "traces_validated_against_impl": ntraces,
+           "samples": samples,
+           "exhaustive": prop == "C14", "evaluations": ntraces,
+           "distinct_nontrivial": len(digests),
            "rule": ("every initial store x (old,new) x fault step x fault kind of the emulated rename (TLC, exhaustive)" if prop == "C14" else
                     "all sessions of 2 operations (TLC exhaustive) and simulated sessions (tlc -simulate) over 8 operations with server "
                     "choices (refusals, name encodings, OK decorations), replies segmented by a seeded plan"),
